@@ -67,7 +67,10 @@ func c13Child(run *evid.Run, batch, nb int, j *Journal) {
 			for _, p := range c13Points[k1] {
 				for _, k2 := range c13Kinds {
 					if n%nb == batch && !evid.IsSaturated() {
-						c13Preempt(run, sw, k1, p, k2, j)
+						c13Preempt(run, sw, k1, p, k2, false, j)
+						if k1 == "join" || k2 == "join" {
+							c13Preempt(run, sw, k1, p, k2, true, j)
+						}
 					}
 					n++
 				}
@@ -213,7 +216,7 @@ func head(a []string, n int) []string {
 }
 
 // c13Preempt: worker A runs k1 and is parked at point; worker B runs k2 meanwhile.
-func c13Preempt(run *evid.Run, sw int, k1, point, k2 string, j *Journal) {
+func c13Preempt(run *evid.Run, sw int, k1, point, k2 string, ahead bool, j *Journal) {
 	rng := rand.New(rand.NewSource(run.Seed*2718281 + int64(sw)*1000 + int64(len(k1)*131+len(point)*17+len(k2))))
 	s := guardedScene(run, fmt.Sprintf("preempt sweep=%d set-up", sw), func() *scene { return newScene(run.Seed, 900000+sw, 2, rng) })
 	if s == nil {
@@ -223,7 +226,13 @@ func c13Preempt(run *evid.Run, sw int, k1, point, k2 string, j *Journal) {
 	s.do(run, 0, "append", rng, false)
 	s.do(run, 0, "values", rng, false)
 	s.do(run, 1, "values", rng, false)
-	label := fmt.Sprintf("preempt sweep=%d A=%s parked at %s, B=%s", sw, k1, point, k2)
+	if ahead {
+		// the only merge source is a log that is AHEAD of L (its head names L's heads): a reader that still holds the
+		// old heads must never see them next to the new one
+		k := s.aheadSource("sweep", 1+sw%2)
+		s.srcs, s.srcSets = s.srcs[k:], s.srcSets[k:]
+	}
+	label := fmt.Sprintf("preempt sweep=%d A=%s parked at %s, B=%s (merge source ahead of L: %v)", sw, k1, point, k2, ahead)
 	j.Log(map[string]any{"scenario": label})
 	p := newPlan(uint64(run.Seed)+uint64(sw), false, map[*ipfslog.IPFSLog]string{s.L: "L"})
 	p.parkLog, p.parkPoint = s.L, point
